@@ -86,8 +86,9 @@ type c20Load struct {
 	Fault   string    `json:"fault"`
 	Pos     int       `json:"pos"`
 	Text    string    `json:"text"`
-	Outer   string    `json:"outer_text,omitempty"` // include: the including text
-	Repair  bool      `json:"repair,omitempty"`     // same file as the previous (failed) consult, with good content
+	Outer   string    `json:"outer_text,omitempty"`       // include: the including text
+	ItemsA  []c20Item `json:"first_file_items,omitempty"` // list2: the undamaged file consulted before this one in the same call
+	Repair  bool      `json:"repair,omitempty"`           // same file as the previous (failed) consult, with good content
 	OpenErr string    `json:"open_err,omitempty"`
 }
 
@@ -324,9 +325,12 @@ func c20Gen(r *kit.Run) *c20Scenario {
 	}
 	for li := 0; li < n; li++ {
 		ld := c20Load{Fault: "none", ID: li}
-		ld.Path = []string{"exec", "consult", "ensure_loaded", "list", "include", "query-consult"}[g.Weighted(4, 3, 1, 1, 2, 1)]
+		ld.Path = []string{"exec", "consult", "ensure_loaded", "list", "include", "query-consult", "list2"}[g.Weighted(4, 3, 1, 1, 2, 1, 2)]
 		ld.File = fmt.Sprintf("f%d", li)
 		ld.Items = c20GenText(g, li)
+		if ld.Path == "list2" {
+			ld.ItemsA = c20GenText(g, 100+li) // consult([fNa, fN]): two texts in one call, each all-or-nothing on its own
+		}
 		fk := 0
 		if g.Choose(2) == 0 {
 			fk = 1 + g.Choose(len(c20Faults)-1)
@@ -343,7 +347,7 @@ func c20Gen(r *kit.Run) *c20Scenario {
 			ld.Path = "consult"
 		}
 		sc.Loads = append(sc.Loads, ld)
-		if ld.Fault != "none" && ld.Path != "exec" && ld.Path != "include" && g.Choose(2) == 0 && fixedKind < 0 {
+		if ld.Fault != "none" && ld.Path != "exec" && ld.Path != "include" && ld.Path != "list2" && g.Choose(2) == 0 && fixedKind < 0 {
 			// repair: consult the same path again with the undamaged content
 			rp := ld
 			rp.Fault, rp.Repair = "none", true
@@ -587,6 +591,9 @@ func (c20) Exec(r *kit.Run) {
 				mustFail = true
 			}
 			switch ld.Path {
+			case "list2":
+				fsys.Files[ld.File+"a.pl"] = []byte(c20Join(ld.ItemsA, g))
+				err = interp.Exec(fmt.Sprintf(":- consult([%sa, %s]).", ld.File, ld.File))
 			case "consult":
 				err = interp.Exec(fmt.Sprintf(":- consult(%s).", ld.File))
 			case "ensure_loaded":
@@ -605,6 +612,20 @@ func (c20) Exec(r *kit.Run) {
 		after := dump()
 		gotNotes := append([]string(nil), notes...)
 		r.Logf("load %d via %s fault=%s pos=%d -> err=%s\n   db: %s\n   notes: %v", li, ld.Path, ld.Fault, ld.Pos, kit.CanonErr(err), after, gotNotes)
+		if ld.Path == "list2" {
+			// the first file of the list is undamaged: it is loaded whatever happens to the second one
+			mid, notesA := c20Apply(model, ld.ItemsA, 100+ld.ID)
+			model = mid
+			before = mid.dump()
+			loaded[ld.File+"a.pl"] = true
+			// what the second file's directives reported follows what the first file reported
+			if len(gotNotes) >= len(notesA) && kit.SameList(gotNotes[:len(notesA)], notesA) {
+				gotNotes = gotNotes[len(notesA):]
+			} else {
+				r.Fail("directive-order", "notes-differ:first-file-of-list", "load %d: the first (undamaged) file of the list reported %v, expected %v", li, gotNotes, notesA)
+				return
+			}
+		}
 		sig := fmt.Sprintf("%s:via-%s", ld.Fault, ld.Path)
 		noOp := ld.Path != "exec" && ld.Path != "include" && loaded[file]
 		switch {
